@@ -384,7 +384,7 @@ theorem evalTerm_ok {sig : Sig} {Γ : VarCtx} {Λ : LitCtx} {w : World} (hw : Wo
   | var v =>
     intro ty ht cp env henv
     simp only [termTy] at ht
-    refine ⟨evalVar w v env, rfl, ?_⟩
+    refine ⟨evalVarAt w cp v env, rfl, ?_⟩
     intro p hp
     rcases evalVar_mem hp with ⟨y, hy, rfl⟩ | ⟨_, y, hy, rfl⟩
     · exact ⟨henv, henv.lookup hy (k := .var v) ht⟩
